@@ -202,7 +202,10 @@ Definition otherwise_valid_mm (mm : mmsg) : Prop :=
   mm_bind mm <> PAOS
   /\ (length (filter (fun x => negb (x_enc x)) (mm_asl mm)) = 1 \/ length (filter x_enc (mm_asl mm)) = 1)
   /\ Forall (fun x => x_who x <> WNone /\ (mm_rwho mm = WNone \/ mm_rwho mm = x_who x) /\ sig_in_profile (x_sig x) = true) (mm_asl mm)
-  /\ sig_in_profile (mm_rs mm) = true.
+  /\ sig_in_profile (mm_rs mm) = true
+  (* the repaired number rule (/repo fix 6a3bb24f): several assertions are put into ONE report, which only a signature of
+     the Response covers: acceptance of more than one assertion is owed only when the Response is signed *)
+  /\ (length (mm_asl mm) <= 1 \/ mm_rs mm <> None).
 
 Definition spec_mm (c : config) (mm : mmsg) (identity : bool) : Prop :=
   (identity = true -> mm_asl mm <> [] /\ satisfied_mm c mm) /\ (satisfied_mm c mm -> otherwise_valid_mm mm -> identity = true).
@@ -217,7 +220,8 @@ Definition otherwise_valid_mm_b (mm : mmsg) : bool :=
   negb (is_paos (mm_bind mm))
   && (Nat.eqb (length (filter (fun x => negb (x_enc x)) (mm_asl mm))) 1 || Nat.eqb (length (filter x_enc (mm_asl mm))) 1)
   && forallb (fun x => has_issuer (x_who x) && (negb (has_issuer (mm_rwho mm)) || who_eqb (mm_rwho mm) (x_who x)) && sig_in_profile (x_sig x)) (mm_asl mm)
-  && sig_in_profile (mm_rs mm).
+  && sig_in_profile (mm_rs mm)
+  && (Nat.leb (length (mm_asl mm)) 1 || match mm_rs mm with Some _ => true | None => false end).
 
 Definition nonempty {A} (l : list A) : bool := match l with [] => false | _ => true end.
 
